@@ -57,7 +57,7 @@ IndexSize(n, recs) == LET b == IndexBody(n, recs) IN b + Pad4(b) + 4
 GoodFile(c, shapes) ==
   LET bs == [i \in 1..Len(shapes) |-> GoodBlock(shapes[i])]
       recs == RecsOf(bs, c) IN
-  [hmagicOk |-> TRUE, hnull |-> TRUE, check |-> c, hcrcOk |-> TRUE,
+  [hmagicOk |-> TRUE, hnull |-> TRUE, hres |-> 0, fres |-> 0, check |-> c, hcrcOk |-> TRUE,
    blocks |-> bs,
    idxN |-> Len(bs), idxRecs |-> recs, idxPadOk |-> TRUE, idxCrcOk |-> TRUE,
    fcrcOk |-> TRUE, backward |-> (IndexSize(Len(bs), recs) \div 4) - 1, fnull |-> TRUE, fcheck |-> c,
@@ -86,7 +86,8 @@ RECURSIVE SumOut(_, _)
 SumOut(pb, n) == IF n = 0 THEN 0 ELSE SumOut(pb, n - 1) + pb[n].out
 
 Parse(f) ==
-  LET headOk == f.hmagicOk /\ f.hcrcOk /\ f.hnull /\ AssignedCheck(f.check) /\ f.check # 10
+  \* the check id is the WHOLE second flags byte: a non-zero reserved nibble is an unknown id
+  LET headOk == f.hmagicOk /\ f.hcrcOk /\ f.hnull /\ f.hres = 0 /\ AssignedCheck(f.check) /\ f.check # 10
       pb     == [i \in 1..Len(f.blocks) |-> ParseBlock(f, f.blocks[i])]
       bad    == FirstBad(f, pb, 1)
       blocksOk == bad = 0
@@ -98,7 +99,7 @@ Parse(f) ==
       \* (no multiplication for the unbounded case: TLC integers are 32-bit)
       bsOk   == IF CmpBits = 0 THEN (isz % 4 = 0 /\ isz \div 4 = f.backward + 1)
                 ELSE Trunc(isz) = Trunc(Trunc(f.backward + 1) * 4)
-      footOk == bsOk /\ f.fnull /\ AssignedCheck(f.fcheck) /\ f.fcheck = f.check /\ f.fcrcOk /\ f.fmagicOk /\ f.trailing = 0
+      footOk == bsOk /\ f.fnull /\ f.fres = 0 /\ AssignedCheck(f.fcheck) /\ f.fcheck = f.check /\ f.fcrcOk /\ f.fmagicOk /\ f.trailing = 0
       \* bytes that reached the sink before decoding stopped
       sunk   == IF ~headOk THEN 0 ELSE IF bad = 0 THEN SumOut(pb, Len(pb)) ELSE SumOut(pb, bad - 1)
   IN [accept |-> headOk /\ blocksOk /\ idxOk /\ footOk,
@@ -108,7 +109,7 @@ Parse(f) ==
 
 \* ------------------------------------------------------------------------ declarative
 Integrity(f) ==
-  /\ f.hmagicOk /\ f.hcrcOk /\ f.fmagicOk /\ f.fcrcOk /\ f.fcheck = f.check /\ f.hnull /\ f.fnull
+  /\ f.hmagicOk /\ f.hcrcOk /\ f.fmagicOk /\ f.fcrcOk /\ f.fcheck = f.check /\ f.hres = f.fres /\ f.hnull /\ f.fnull
   /\ \A i \in 1..Len(f.blocks) : LET b == f.blocks[i] IN
         /\ b.hcrcOk /\ b.hpadOk /\ b.bpadOk /\ b.checkOk
         /\ (b.hasP => b.pdecl = Lib[b.pid].plen) /\ (b.hasU => b.udecl = Lib[b.pid].ulen)
@@ -117,7 +118,7 @@ Integrity(f) ==
   /\ LET isz == IndexSize(f.idxN, f.idxRecs) IN isz % 4 = 0 /\ isz \div 4 = f.backward + 1
   /\ f.trailing = 0
 Supported(f) ==
-  /\ SupportedCheck(f.check)
+  /\ SupportedCheck(f.check) /\ f.hres = 0 /\ f.fres = 0
   /\ \A i \in 1..Len(f.blocks) : LET b == f.blocks[i] IN b.fid = 33 /\ ~b.reserved /\ b.nfilters = 1 /\ b.propsLen = 1
 TotalOut(f) == LET S[i \in 0..Len(f.blocks)] == IF i = 0 THEN 0 ELSE S[i - 1] + Lib[f.blocks[i].pid].ulen IN S[Len(f.blocks)]
 ====
